@@ -313,7 +313,21 @@ func (g *flowGen) jump(target int) []*hast.Stmt {
 	st := &hast.Stmt{K: hast.SJump, ID: g.id()}
 	title := g.titles[target]
 	if g.cfg.BadJumps > 0 && r.Intn(100) < g.cfg.BadJumps {
-		title = "Nowhere"
+		bad := "Nowhere"
+		if r.Chance(1, 2) {
+			// almost the title of a node: another letter case, or one more character
+			alt := swapCase(title)
+			if r.Bool() {
+				alt = title + "x"
+			}
+			bad = alt
+			for _, t := range g.titles {
+				if t == alt || alt == "" {
+					bad = "Nowhere"
+				}
+			}
+		}
+		title = bad
 		target = len(g.titles) // treated as a forward jump: no fuel guard needed, it fails
 	}
 	if g.destVar && r.Chance(1, 3) {
